@@ -656,6 +656,14 @@ func sysuStream(g *hx.Gen, id int) hx.Case {
 	}
 	if c.Req.Method == "POST" || c.Req.Method == "PUT" || g.Chance(10) {
 		c.Req.Body = genBody(g)
+		if g.Chance(4) {
+			// an upload above 1 MiB (seeded change C03-m7: large uploads "passed through rather than buffered for a repeat")
+			b := make([]byte, 1<<20+4096+g.Intn(999))
+			for i := range b {
+				b[i] = byte('A' + i%31)
+			}
+			c.Req.Body = b
+		}
 		c.Req.Chunked = len(c.Req.Body) > 0 && g.Chance(35)
 	}
 	for _, h := range []string{"d0.test", "c0.test", "r0.test", "r1.test", "d2.test", "d3.test", "d4.test", "s0.test", "s1.test"} {
